@@ -51,7 +51,11 @@ def materialize(box, files, single):
         if getattr(b, "hardlink_of", None):
             path = os.path.join(root, *rel.split("/"))
             os.remove(path)
-            os.link(os.path.join(root, *b.hardlink_of.split("/")), path)
+            if b.hardlink_of.startswith("@"):      # a symbolic link (relative) to the other file
+                target = os.path.join(root, *b.hardlink_of[1:].split("/"))
+                os.symlink(os.path.relpath(target, os.path.dirname(path)), path)
+            else:
+                os.link(os.path.join(root, *b.hardlink_of.split("/")), path)
     for d in getattr(files, "emptydirs", ()):
         os.makedirs(os.path.join(root, *d.split("/")), exist_ok=True)
     return root, "payload"
@@ -81,6 +85,7 @@ class Prog(int):
     """A progress mode that also says how often the public assemble() is called again before
     write() (object reuse: the result must be the same as after the constructor's own call)."""
     again = 0
+    abort_first = False
 
 
 def variant(rng, root, single):
@@ -90,6 +95,7 @@ def variant(rng, root, single):
         spelled = rng.choice([root + "/", root + "//", root + "/.", root.replace("/payload", "//payload")])
     prog = Prog(rng.choice([0, 0, 1, 2]))
     prog.again = rng.choice([0, 0, 0, 0, 1, 2])
+    prog.abort_first = rng.random() < 0.12
     return spelled, prog
 
 
